@@ -164,6 +164,11 @@ class Interposer(object):
     def fdopen(self, fd, *a, **kw):
         return FileProxy(os.fdopen(fd, *a, **kw), self)
 
+    def builtin_open(self, p, mode='r', *a, **kw):
+        """Stands in for the builtin open() inside boltons.fileutils (a module global shadows the builtin)."""
+        self.event('bopen', p if isinstance(p, (str, int)) else os.fspath(p), mode)
+        return FileProxy(open(p, mode, *a, **kw), self)
+
     def chmod(self, p, mode, *a, **kw):
         self.event('chmod', p, mode)
         return os.chmod(p, mode, *a, **kw)
@@ -232,6 +237,22 @@ BODY_EXC = {'body-error': BodyError, 'KeyboardInterrupt': KeyboardInterrupt, 'Sy
             'GeneratorExit': GeneratorExit}
 
 
+def install(fu, ip):
+    """Route fileutils' os module and its use of the builtin open() through the interposer."""
+    saved = (fu.os, fu.__dict__.get('open', None))
+    fu.os = ip
+    fu.open = ip.builtin_open
+    return saved
+
+
+def uninstall(fu, saved):
+    fu.os = saved[0]
+    if saved[1] is None:
+        fu.__dict__.pop('open', None)
+    else:
+        fu.open = saved[1]
+
+
 def do_save(fu, scn, dest):
     """The client code: one atomic save as a user would write it."""
     chunks = new_content(scn)
@@ -243,6 +264,11 @@ def do_save(fu, scn, dest):
             fo.write(ch)
             if i in scn.get('flush', ()):
                 fo.flush()
+        if scn.get('body_close') == 'close':
+            fo.close()          # a body that closes the file it was handed (fo.close(), `with fo:`, a wrapper owning it)
+        elif scn.get('body_close') == 'with':
+            with fo:
+                pass
         if scn.get('intruder'):
             with open(dest, 'wb') as f:
                 f.write(INTRUDER)
@@ -268,9 +294,8 @@ def run_in_process(fu, scn, d, faults=None):
     dest, part = prepare_dir(scn, d)
     before = snapshot(d, dest, part)
     ip = Interposer(faults=faults)
-    real_os = fu.os
     old_umask = os.umask(scn.get('umask', 0o022))
-    fu.os = ip
+    saved = install(fu, ip)
     exc = None
     try:
         try:
@@ -278,15 +303,16 @@ def run_in_process(fu, scn, d, faults=None):
         except BaseException as e:   # noqa
             exc = e
     finally:
-        fu.os = real_os
+        uninstall(fu, saved)
         os.umask(old_umask)
     after = snapshot(d, dest, part)
     return {'exc': exc, 'log': ip.log, 'injected': ip.injected, 'before': before, 'after': after,
             'dest': dest, 'part': part}
 
 
-def run_crash_child(fu, scn, d, crash_before):
-    """Fork; the child performs the save and dies (os._exit) immediately before event k.
+def run_crash_child(fu, scn, d, crash_before, faults=None):
+    """Fork; the child performs the save and dies (os._exit) immediately before event k (optionally with
+    OSErrors injected at earlier events).
     Returns (status, snapshot_after, before): status 'crashed' | 'completed' | 'raised'."""
     dest, part = prepare_dir(scn, d)
     before = snapshot(d, dest, part)
@@ -297,7 +323,7 @@ def run_crash_child(fu, scn, d, crash_before):
         code = 70
         try:
             os.umask(scn.get('umask', 0o022))
-            fu.os = Interposer(crash_before=crash_before)
+            install(fu, Interposer(crash_before=crash_before, faults=faults))
             try:
                 do_save(fu, scn, dest)
                 code = 0
@@ -342,6 +368,20 @@ def run_limited_child(fu, scn, d, fsize_limit):
 
 
 # ---------------------------------------------------------------- order oracle on an event log
+
+def dest_touch_violations(log, dest):
+    """The destination name may only ever be changed by a rename/link of the part file onto it."""
+    out = []
+    for e in log:
+        if e[0] in ('unlink', 'chmod', 'open') and os.path.abspath(str(e[1])) == dest and 'FAULT' not in str(e[-1]):
+            out.append('%s applied to the destination path' % e[0])
+        if e[0] == 'bopen' and isinstance(e[1], str) and os.path.abspath(e[1]) == dest and \
+                any(c in str(e[2]) for c in 'wax+'):
+            out.append('destination opened for writing with open(%r)' % (e[2],))
+        if e[0] == 'rename' and os.path.abspath(e[1]) == dest:
+            out.append('destination renamed away')
+    return out
+
 
 def order_violations(log, dest, part, want_bytes_len):
     """Ordering rules on the interposer's event log of a save that completed normally."""
@@ -397,11 +437,7 @@ def order_violations(log, dest, part, want_bytes_len):
                 out.append('part file not closed between fsync and publication')
     if sum(log[i][1] for i in writes) != want_bytes_len and want_bytes_len is not None:
         pass   # text mode counts characters; the state oracle compares the bytes
-    for i, e in enumerate(log):
-        if e[0] in ('unlink', 'chmod', 'open') and os.path.abspath(str(e[1])) == dest:
-            out.append('%s applied to the destination path' % e[0])
-        if e[0] == 'rename' and os.path.abspath(e[1]) == dest:
-            out.append('destination renamed away')
+    out.extend(dest_touch_violations(log, dest))
     return out
 
 
